@@ -313,6 +313,41 @@ pub fn gen_iter(rng: &mut Rng, len: usize, exec: &mut dyn FnMut(String) -> Strin
     (g.exec)("R drop".into());
 }
 
+/// the two public positioned constructors, called directly with positions inside, at the end of, past the end of
+/// live leaves, and with leaf ids that are free or were never issued
+fn positioned_calls(g: &mut Gen, d: &DumpInfo, prefix: &str, n: usize) {
+    let live: Vec<u32> = (0..d.leaves.len() as u32).filter(|i| d.leaves[*i as usize].live).collect();
+    for _ in 0..n {
+        let leaf: u32 = match g.rng.below(10) {
+            0 => d.leaves.len() as u32 + g.rng.below(3) as u32,
+            1 => 4_000_000,
+            2 => (0..d.leaves.len() as u32).find(|i| !d.leaves[*i as usize].live).unwrap_or(77),
+            _ => {
+                if live.is_empty() {
+                    0
+                } else {
+                    live[g.rng.below(live.len() as u64) as usize]
+                }
+            }
+        };
+        let klen = d.leaves.get(leaf as usize).map(|l| l.keys.len()).unwrap_or(0);
+        let idx = match g.rng.below(6) {
+            0 => 0,
+            1 => klen.saturating_sub(1),
+            2 | 3 => klen,
+            4 => klen + 1,
+            _ => 97,
+        };
+        let e = g.bound();
+        if g.rng.chance(65) {
+            let skip = g.rng.below(2);
+            (g.exec)(format!("{} rangefrom {} {} {} {}", prefix, leaf, idx, skip, e));
+        } else {
+            (g.exec)(format!("{} iterfrom {} {} 0 {}", prefix, leaf, idx, e));
+        }
+    }
+}
+
 /// C03: states, then boundary-targeted range queries of all 9 bound-kind combinations
 pub fn gen_range(rng: &mut Rng, len: usize, exec: &mut dyn FnMut(String) -> String, case: usize) {
     let mut g = Gen::new(rng, exec);
@@ -321,7 +356,9 @@ pub fn gen_range(rng: &mut Rng, len: usize, exec: &mut dyn FnMut(String) -> Stri
     for r in 0..rounds {
         let bias = if r % 2 == 0 { 80 } else { 35 };
         g.mutate(len / rounds + 1, bias, 0);
-        (g.exec)("R dump".into());
+        let dtxt = (g.exec)("R dump".into());
+        let dinfo = parse_dump(&dtxt);
+        positioned_calls(&mut g, &dinfo, "R", 8);
         for _ in 0..40 {
             let (lo, hi) = (g.bound(), g.bound());
             (g.exec)(format!("R range {} {}", lo, hi));
@@ -911,6 +948,7 @@ pub fn gen_helpers(rng: &mut Rng, len: usize, exec: &mut dyn FnMut(String) -> St
     }
     (g.exec)("R partial 5 3".into());
     (g.exec)("R partialfast 5 3".into());
+    positioned_calls(&mut g, &d, "R", 6);
     (g.exec)("R drop".into());
 }
 
@@ -930,7 +968,15 @@ pub fn gen_faults(rng: &mut Rng, len: usize, exec: &mut dyn FnMut(String) -> Str
     for _ in 0..rounds {
         // a removal that borrows / merges clones one separator (leaf level) or one to two (branch level);
         // an insert that splits clones one per split level.  cmp runs ~log2(cap) times per level.
-        if g.rng.chance(70) {
+        if g.rng.chance(15) {
+            // a destructor of the key / value type panics while `clear()` (or a removal) is dropping entries
+            let n = 1 + g.rng.below(6);
+            (g.exec)(format!("F arm-{} {}", if g.rng.chance(50) { "kdrop" } else { "vdrop" }, n));
+            if g.rng.chance(70) {
+                (g.exec)("F clear".into());
+                g.present.clear();
+            }
+        } else if g.rng.chance(70) {
             let span = if g.rng.chance(70) { 1 } else { 3 };
             let n = 1 + g.rng.below(span);
             (g.exec)(format!("F arm-clone {}", n));
@@ -991,7 +1037,7 @@ pub fn gen_faults(rng: &mut Rng, len: usize, exec: &mut dyn FnMut(String) -> Str
                     format!("F range {}{} {}{}", kinds[g.rng.below(2) as usize], a, kinds[g.rng.below(2) as usize], b)
                 }
                 11 => format!("F get {}", g.probe_key()),
-                12 => "F len".to_string(),
+                12 => format!("F rangefrom {} {} {} u", g.rng.below(12), g.rng.below(6), g.rng.below(2)),
                 _ => "F validateop".to_string(),
             };
             (g.exec)(line);
@@ -1060,4 +1106,60 @@ pub fn gen_exh(_rng: &mut Rng, depth: usize, exec: &mut dyn FnMut(String) -> Str
     exec("R itemsfast".into());
     exec("R check".into());
     exec("R counts".into());
+}
+
+
+/// Deep trees (oracle-only lines, prefix `O`): capacity 4..6 grown by ascending inserts until the height the case asks
+/// for (capacity 4: 80 000 keys reach 11 levels), then lookups, range queries of every bound kind, iterator prefixes,
+/// removals and validators, all against BTreeMap and the structural oracles.
+pub fn gen_deep(rng: &mut Rng, len: usize, exec: &mut dyn FnMut(String) -> String, case: usize) {
+    let cap = [4usize, 4, 5, 6][case % 4];
+    let n: i64 = (len as i64).max(1000) * if cap == 4 { 1 } else { 2 };
+    exec(format!("O new {}", cap));
+    let mut serial = 0u64;
+    for i in 0..n {
+        serial += 1;
+        exec(format!("O insert {}#{} {}", 2 * i, serial, serial));
+    }
+    exec("O fullcheck".into());
+    let kinds = ["i", "e"];
+    for r in 0..120 {
+        let a = 2 * rng.range(0, n) + if rng.chance(30) { 1 } else { 0 };
+        let w = rng.range(0, 12);
+        let line = match r % 12 {
+            0 => format!("O range i{} e{}", a, a + w),
+            1 => format!("O range i{} i{}", a, a),
+            2 => format!("O range e{} i{}", a, a + w),
+            3 => format!("O itemsrange {} {}", a, a + w),
+            4 => format!("O get {}", a),
+            5 => format!("O contains {}", a),
+            6 => format!("O getmut {} {}", a, 7_000_000 + r),
+            7 => format!("O range {}{} u", kinds[rng.below(2) as usize], 2 * n - 2 * rng.range(0, 6)),
+            8 => format!("O range u {}{}", kinds[rng.below(2) as usize], 2 * rng.range(0, 6)),
+            9 => format!("O itemsfrom {} i{}", a, a + w),
+            10 => format!("O partial {} 1", rng.below(9)),
+            _ => format!("O partialrange i{} u {}", a, 1 + rng.below(5)),
+        };
+        exec(line);
+    }
+    exec("O first".into());
+    exec("O last".into());
+    exec("O len".into());
+    // shrink from both ends and the middle, then look again
+    for i in 0..(n / 3) {
+        let k = match i % 3 {
+            0 => 2 * i,
+            1 => 2 * (n - 1 - i),
+            _ => 2 * (n / 2 + i / 3),
+        };
+        exec(format!("O remove {}", k));
+    }
+    exec("O fullcheck".into());
+    for _ in 0..40 {
+        let a = 2 * rng.range(0, n);
+        exec(format!("O range i{} e{}", a, a + 2 * rng.range(0, 8)));
+        exec(format!("O get {}", a));
+    }
+    exec("O len".into());
+    exec("O drop".into());
 }
